@@ -4,6 +4,8 @@ import (
 	"bytes"
 	"encoding/json"
 	"fmt"
+	"go/parser"
+	"go/token"
 	"hash/fnv"
 	"os"
 	"path/filepath"
@@ -178,6 +180,51 @@ func (e *Env) gensimTexts(nGen int, thorough bool) []GText {
 	return out
 }
 
+// modulePackages returns, in dependency-free sorted order, the directories
+// (relative to the module root) of the module's packages reachable from the
+// given ones through imports.
+func modulePackages(root string, start []string) []string {
+	const mod = "github.com/pointlander/peg"
+	seen := map[string]bool{}
+	var visit func(rel string)
+	visit = func(rel string) {
+		if seen[rel] {
+			return
+		}
+		seen[rel] = true
+		ents, err := os.ReadDir(filepath.Join(root, rel))
+		if err != nil {
+			return
+		}
+		fset := token.NewFileSet()
+		for _, en := range ents {
+			n := en.Name()
+			if en.IsDir() || !strings.HasSuffix(n, ".go") || strings.HasSuffix(n, "_test.go") {
+				continue
+			}
+			f, err := parser.ParseFile(fset, filepath.Join(root, rel, n), nil, parser.ImportsOnly)
+			if err != nil {
+				continue
+			}
+			for _, im := range f.Imports {
+				p := strings.Trim(im.Path.Value, "\"`")
+				if strings.HasPrefix(p, mod+"/") && !strings.HasPrefix(p, mod+"/zzsim/simrt") {
+					visit(strings.TrimPrefix(p, mod+"/"))
+				}
+			}
+		}
+	}
+	for _, s := range start {
+		visit(s)
+	}
+	var out []string
+	for d := range seen {
+		out = append(out, d)
+	}
+	sort.Strings(out)
+	return out
+}
+
 // manyRules: more rules than a uint8 rule type can number.
 func manyRules(n int) string {
 	var sb strings.Builder
@@ -211,7 +258,10 @@ func buildGensim(e *Env, sc *Scratch, texts []GText, wantRace bool) (*gensimRig,
 		return nil, infra("copy: %v", err)
 	}
 	rig.weaver = &weave.Weaver{ModuleDir: rig.wrepo}
-	for _, d := range []string{"set", "tree", "zzsim/frontend"} {
+	// every package of the module that tree or the front end (transitively)
+	// imports is woven, so that code moved or added by a change is covered too
+	dirs := modulePackages(rig.wrepo, []string{"tree", "zzsim/frontend"})
+	for _, d := range dirs {
 		// statement-level yields in the generator itself; the front end (an emitted parser) keeps function-level ones
 		opt := weave.Options{Yields: true, StmtYields: d != "zzsim/frontend", SyncTypes: true, Stderr: true, MapRanges: true, Procs: true}
 		if err := rig.weaver.WeaveDir(filepath.Join(rig.wrepo, d), d, opt); err != nil {
@@ -509,14 +559,38 @@ func (rig *gensimRig) processTier(optSets [][]string, withRace bool) (runs int, 
 		}
 		args := append(append([]string{}, it.opts...), "-output", "out.go", "in.peg")
 		var all []obs
+		// Besides GOMAXPROCS, everything else the environment hands a process
+		// and that must not leak into the output is varied between the runs
+		// of one item: the working directory (same relative names), HOME, TZ,
+		// LANG, TMPDIR and an unrelated variable, the process id (always), and
+		// for one item in eight the wall-clock second.
 		runOne := func(bin string, procs string, how string) error {
-			os.Remove(filepath.Join(dir, "out.go"))
+			wd := dir
 			env := append(os.Environ(), "GOMAXPROCS="+procs, "GORACE=halt_on_error=0 exitcode=66")
-			_, se, exit, err := RunCmd(10*time.Minute, dir, env, nil, bin, args...)
+			switch procs {
+			case "2":
+				wd = filepath.Join(dir, "elsewhere", "deeper")
+				if err := os.MkdirAll(wd, 0o755); err != nil {
+					return err
+				}
+				if err := CopyFile(filepath.Join(dir, "in.peg"), filepath.Join(wd, "in.peg")); err != nil {
+					return err
+				}
+				how += ", other working directory"
+			case "16":
+				env = append(env, "HOME=/nonexistent-home", "TZ=Pacific/Kiritimati", "LANG=tlh_QO.UTF-8", "TMPDIR=/nonexistent-tmp", fmt.Sprintf("VERIF_UNRELATED=%d", i))
+				how += ", other HOME/TZ/LANG/TMPDIR"
+				if i%8 == 3 {
+					time.Sleep(1100 * time.Millisecond)
+					how += ", a second later"
+				}
+			}
+			os.Remove(filepath.Join(wd, "out.go"))
+			_, se, exit, err := RunCmd(10*time.Minute, wd, env, nil, bin, args...)
 			if err != nil {
 				return infra("peg: %v", err)
 			}
-			b, _ := os.ReadFile(filepath.Join(dir, "out.go"))
+			b, _ := os.ReadFile(filepath.Join(wd, "out.go"))
 			all = append(all, obs{b, string(se), exit, how})
 			return nil
 		}
